@@ -171,6 +171,9 @@ def run_scenario(sc, chooser=None, seed=0, max_steps=3000, rewait_limit=12):
             sched.note("ret", ti, "wait", bool(r))
             if not r and not (till is not None and bool(ds.raw(tills[till], "_go"))):
                 st["viol"].append("C06: wait() returned False on thread %d although its timeout has not fired" % ti)
+                if st["external"] == ext_before:
+                    st["viol"].append("C20: thread %d came back from Lock.wait() although nothing had happened: it was not signalled, "
+                                      "no timeout fired, nobody entered or left the lock" % ti)
             # C20: a thread that keeps re-waiting while nothing external happens
             if st["external"] == ext_before:
                 n = st["rewaits"].get(ti, 0) + 1
